@@ -5,17 +5,936 @@ open Std
 
 variable {κ ν : Type} {cmp : κ → κ → Ordering}
 
+set_option linter.unusedSimpArgs false
+
+namespace RT
+
+/-! ### basic facts -/
+
+@[simp] theorem toList_nil : (nil : RT κ ν).toList = [] := rfl
+@[simp] theorem toList_node (l : RT κ ν) (k : κ) (v : ν) (c : Color) (r : RT κ ν) :
+    (node l k v c r).toList = l.toList ++ (k, v) :: r.toList := rfl
+@[simp] theorem toList_paint (c : Color) (t : RT κ ν) : (paint c t).toList = t.toList := by
+  cases t <;> rfl
+
+@[simp] theorem bh_nil : (nil : RT κ ν).bh = 0 := rfl
+@[simp] theorem bh_black (l : RT κ ν) (k : κ) (v : ν) (r : RT κ ν) :
+    (node l k v .black r).bh = l.bh + 1 := by simp [bh]
+@[simp] theorem bh_red (l : RT κ ν) (k : κ) (v : ν) (r : RT κ ν) :
+    (node l k v .red r).bh = l.bh := by simp [bh]
+
+@[simp] theorem isBlack_nil : (nil : RT κ ν).isBlack = true := rfl
+@[simp] theorem isBlack_black (l : RT κ ν) (k : κ) (v : ν) (r : RT κ ν) :
+    (node l k v .black r).isBlack = true := rfl
+@[simp] theorem isBlack_red (l : RT κ ν) (k : κ) (v : ν) (r : RT κ ν) :
+    (node l k v .red r).isBlack = false := rfl
+@[simp] theorem isRedNode_nil : (nil : RT κ ν).isRedNode = false := rfl
+@[simp] theorem isRedNode_black (l : RT κ ν) (k : κ) (v : ν) (r : RT κ ν) :
+    (node l k v .black r).isRedNode = false := rfl
+@[simp] theorem isRedNode_red (l : RT κ ν) (k : κ) (v : ν) (r : RT κ ν) :
+    (node l k v .red r).isRedNode = true := rfl
+
+@[simp] theorem Bal_nil : (nil : RT κ ν).Bal := trivial
+@[simp] theorem Bal_black (l : RT κ ν) (k : κ) (v : ν) (r : RT κ ν) :
+    (node l k v .black r).Bal ↔ l.Bal ∧ r.Bal ∧ l.bh = r.bh := by simp [Bal]
+@[simp] theorem Bal_red (l : RT κ ν) (k : κ) (v : ν) (r : RT κ ν) :
+    (node l k v .red r).Bal ↔ l.Bal ∧ r.Bal ∧ l.bh = r.bh ∧ l.isBlack = true ∧ r.isBlack = true := by
+  simp [Bal]
+
+theorem Bal_paint_black {t : RT κ ν} (h : t.Bal) : (paint .black t).Bal := by
+  cases t with
+  | nil => trivial
+  | node l k v c r => cases c <;> simp_all [paint]
+
+/-- a red-rooted tree, spelled out -/
+theorem red_of_not_black {t : RT κ ν} (h : t.isBlack = false) :
+    ∃ l k v r, t = node l k v .red r := by
+  cases t with
+  | nil => simp at h
+  | node l k v c r => cases c <;> simp_all
+
+theorem black_of_not_redNode {t : RT κ ν} (h : t.isRedNode = false) : t.isBlack = true := by
+  cases t with
+  | nil => rfl
+  | node l k v c r => cases c <;> simp_all
+
+end RT
+
+/-! ### insertion: in-order listing -/
+
+namespace RT
+
+theorem atGparentL_toList {p u : RT κ ν} {gk : κ} {gv : ν} {d' : Dir} {t : RT κ ν} {st : InsSt}
+    (h : atGparentL p gk gv u d' = some (t, st)) :
+    t.toList = p.toList ++ (gk, gv) :: u.toList := by
+  unfold atGparentL at h
+  split at h
+  · simp at h
+  · split at h
+    · simp only [Option.some.injEq, Prod.mk.injEq] at h
+      rw [← h.1]; simp
+    · split at h
+      · simp only [Option.some.injEq, Prod.mk.injEq] at h
+        rw [← h.1]; simp
+      · split at h
+        · simp at h
+        · simp only [Option.some.injEq, Prod.mk.injEq] at h
+          rw [← h.1]; simp
+
+theorem atGparentR_toList {p u : RT κ ν} {gk : κ} {gv : ν} {d' : Dir} {t : RT κ ν} {st : InsSt}
+    (h : atGparentR u gk gv p d' = some (t, st)) :
+    t.toList = u.toList ++ (gk, gv) :: p.toList := by
+  unfold atGparentR at h
+  split at h
+  · simp at h
+  · split at h
+    · simp only [Option.some.injEq, Prod.mk.injEq] at h
+      rw [← h.1]; simp
+    · split at h
+      · simp only [Option.some.injEq, Prod.mk.injEq] at h
+        rw [← h.1]; simp
+      · split at h
+        · simp at h
+        · simp only [Option.some.injEq, Prod.mk.injEq] at h
+          rw [← h.1]; simp
+
+theorem insAux_toList [TransCmp cmp] (t : RT κ ν) (x : κ) (y : ν) :
+    ∀ {t' st a d}, insAux cmp t x y = some (t', st, a, d) → SM.Sorted cmp t.toList →
+      t'.toList = SM.insert cmp t.toList x y ∧ a = (SM.find cmp t.toList x).isNone ∧
+      d = (SM.find cmp t.toList x).toList := by
+  induction t with
+  | nil =>
+    intro t' st a d h _
+    simp only [insAux, Option.some.injEq, Prod.mk.injEq] at h
+    obtain ⟨rfl, _, rfl, rfl⟩ := h
+    simp [SM.insert, SM.find]
+  | node l k v c r ihl ihr =>
+    intro t' st a d h hs
+    rw [toList_node] at hs ⊢
+    have hs' := SM.sorted_append_cons.mp hs
+    simp only [insAux] at h
+    split at h
+    · -- lt
+      rename_i hc
+      rw [SM.insert_mid_lt hs hc, SM.find_mid_lt hs hc]
+      split at h
+      · simp at h
+      · rename_i l' st' a' d' hl
+        obtain ⟨e1, e2, e3⟩ := ihl hl hs'.1
+        split at h
+        · simp only [Option.some.injEq, Prod.mk.injEq] at h
+          obtain ⟨rfl, _, rfl, rfl⟩ := h
+          simp [e1, e2, e3]
+        · simp only [Option.some.injEq, Prod.mk.injEq] at h
+          obtain ⟨rfl, _, rfl, rfl⟩ := h
+          simp [e1, e2, e3]
+        · simp only [Option.map_eq_some_iff] at h
+          obtain ⟨⟨t2, st2⟩, hg, h⟩ := h
+          simp only [Prod.mk.injEq] at h
+          obtain ⟨rfl, _, rfl, rfl⟩ := h
+          rw [atGparentL_toList hg]
+          simp [e1, e2, e3]
+    · -- gt
+      rename_i hc
+      rw [SM.insert_mid_gt hs hc, SM.find_mid_gt hs hc]
+      split at h
+      · simp at h
+      · rename_i r' st' a' d' hr
+        obtain ⟨e1, e2, e3⟩ := ihr hr hs'.2.1
+        split at h
+        · simp only [Option.some.injEq, Prod.mk.injEq] at h
+          obtain ⟨rfl, _, rfl, rfl⟩ := h
+          simp [e1, e2, e3]
+        · simp only [Option.some.injEq, Prod.mk.injEq] at h
+          obtain ⟨rfl, _, rfl, rfl⟩ := h
+          simp [e1, e2, e3]
+        · simp only [Option.map_eq_some_iff] at h
+          obtain ⟨⟨t2, st2⟩, hg, h⟩ := h
+          simp only [Prod.mk.injEq] at h
+          obtain ⟨rfl, _, rfl, rfl⟩ := h
+          rw [atGparentR_toList hg]
+          simp [e1, e2, e3]
+    · -- eq
+      rename_i hc
+      rw [SM.insert_mid_eq hs hc, SM.find_mid_eq hs hc]
+      simp only [Option.some.injEq, Prod.mk.injEq] at h
+      obtain ⟨rfl, _, rfl, rfl⟩ := h
+      simp
+
+end RT
+
+/-! ### insertion: colour invariant -/
+
+namespace RT
+
+theorem red_of_isRedNode {t : RT κ ν} (h : t.isRedNode = true) :
+    ∃ l k v r, t = node l k v .red r := by
+  cases t with
+  | nil => simp at h
+  | node l k v c r => cases c <;> simp_all
+
+/-- side condition of the "red parent with a red `d` child" state -/
+def RedChild (d : Dir) (a b : RT κ ν) : Prop :=
+  match d with
+  | .left => a.isBlack = false ∧ b.isBlack = true
+  | .right => a.isBlack = true ∧ b.isBlack = false
+
+/-- what `insAux` promises about the subtree `t'` it hands upward in place of `t` -/
+def InsOK (t t' : RT κ ν) : InsSt → Prop
+  | .done => t'.Bal ∧ (t.isBlack = true → t'.isBlack = true)
+  | .node => t'.Bal ∧ t'.isBlack = false
+  | .child d => t.isBlack = false ∧ ∃ a k v b, t' = node a k v .red b ∧ a.Bal ∧ b.Bal ∧
+      a.bh = b.bh ∧ RedChild d a b
+
+theorem atGparentL_ok {a b u : RT κ ν} {k gk : κ} {v gv : ν} {d' : Dir}
+    (ha : a.Bal) (hb : b.Bal) (hab : a.bh = b.bh) (hd : RedChild d' a b)
+    (hu : u.Bal) (hbh : a.bh = u.bh) :
+    ∃ t st, atGparentL (node a k v .red b) gk gv u d' = some (t, st) ∧ t.bh = u.bh + 1 ∧ t.Bal ∧
+      ((st = .done ∧ t.isBlack = true) ∨ (st = .node ∧ t.isBlack = false)) := by
+  unfold atGparentL
+  cases hr : u.isRedNode
+  · have hub := black_of_not_redNode hr
+    cases d' with
+    | left =>
+      obtain ⟨h1, h2⟩ := hd
+      refine ⟨_, _, rfl, ?_⟩
+      simp_all
+    | right =>
+      obtain ⟨h1, h2⟩ := hd
+      obtain ⟨nl, nk, nv, nr, rfl⟩ := red_of_not_black h2
+      refine ⟨_, _, rfl, ?_⟩
+      simp_all
+  · obtain ⟨ul, uk, uv, ur, rfl⟩ := red_of_isRedNode hr
+    refine ⟨_, _, rfl, ?_⟩
+    simp_all [paint]
+
+theorem atGparentR_ok {a b u : RT κ ν} {k gk : κ} {v gv : ν} {d' : Dir}
+    (ha : a.Bal) (hb : b.Bal) (hab : a.bh = b.bh) (hd : RedChild d' a b)
+    (hu : u.Bal) (hbh : a.bh = u.bh) :
+    ∃ t st, atGparentR u gk gv (node a k v .red b) d' = some (t, st) ∧ t.bh = u.bh + 1 ∧ t.Bal ∧
+      ((st = .done ∧ t.isBlack = true) ∨ (st = .node ∧ t.isBlack = false)) := by
+  unfold atGparentR
+  cases hr : u.isRedNode
+  · have hub := black_of_not_redNode hr
+    cases d' with
+    | right =>
+      obtain ⟨h1, h2⟩ := hd
+      refine ⟨_, _, rfl, ?_⟩
+      simp_all
+    | left =>
+      obtain ⟨h1, h2⟩ := hd
+      obtain ⟨nl, nk, nv, nr, rfl⟩ := red_of_not_black h1
+      refine ⟨_, _, rfl, ?_⟩
+      simp_all
+  · obtain ⟨ul, uk, uv, ur, rfl⟩ := red_of_isRedNode hr
+    refine ⟨_, _, rfl, ?_⟩
+    simp_all [paint]
+
+theorem insAux_ok (cmp : κ → κ → Ordering) (t : RT κ ν) (x : κ) (y : ν) (hb : t.Bal) :
+    ∃ t' st a d, insAux cmp t x y = some (t', st, a, d) ∧ t'.bh = t.bh ∧ InsOK t t' st := by
+  induction t with
+  | nil => exact ⟨_, _, _, _, rfl, by simp, by simp [InsOK]⟩
+  | node l k v c r ihl ihr =>
+    have hbl : l.Bal := hb.1
+    have hbr : r.Bal := hb.2.1
+    have he : l.bh = r.bh := hb.2.2.1
+    obtain ⟨l', stl, al, dl, hl, hlb, hlo⟩ := ihl hbl
+    obtain ⟨r', str, ar, dr, hr, hrb, hro⟩ := ihr hbr
+    simp only [insAux]
+    split
+    · -- lt
+      rw [hl]
+      cases stl with
+      | done =>
+        refine ⟨_, _, _, _, rfl, ?_, ?_⟩
+        · cases c <;> simp [hlb]
+        · cases c <;> simp_all [InsOK]
+      | node =>
+        refine ⟨_, _, _, _, rfl, ?_, ?_⟩
+        · cases c <;> simp [hlb]
+        · cases c
+          · simp only [atParent, isBlack_red, InsOK]
+            simp_all [InsOK, RedChild]
+            exact ⟨_, _, _, _, ⟨rfl, rfl, rfl, rfl⟩, by simp_all⟩
+          · simp_all [atParent, InsOK]
+      | child d' =>
+        obtain ⟨hlr, a, pk, pv, b, rfl, ha, hb', hab, hd⟩ := hlo
+        obtain ⟨gl, gk, gv, gr, rfl⟩ := red_of_not_black hlr
+        have hcb : c = .black := by
+          cases c
+          · simp_all
+          · rfl
+        subst hcb
+        obtain ⟨t, st, hg, h1, h2, h3⟩ :=
+          atGparentL_ok (k := pk) (v := pv) (gk := k) (gv := v) ha hb' hab hd hbr (by simp_all)
+        simp only [hg, Option.map_some]
+        refine ⟨_, _, _, _, rfl, ?_, ?_⟩
+        · simp_all
+        · rcases h3 with ⟨rfl, h3⟩ | ⟨rfl, h3⟩ <;> simp_all [InsOK]
+    · -- gt
+      rw [hr]
+      cases str with
+      | done =>
+        refine ⟨_, _, _, _, rfl, ?_, ?_⟩
+        · cases c <;> simp
+        · cases c <;> simp_all [InsOK]
+      | node =>
+        refine ⟨_, _, _, _, rfl, ?_, ?_⟩
+        · cases c <;> simp
+        · cases c
+          · simp only [atParent, isBlack_red, InsOK]
+            simp_all [InsOK, RedChild]
+            exact ⟨_, _, _, _, ⟨rfl, rfl, rfl, rfl⟩, by simp_all⟩
+          · simp_all [atParent, InsOK]
+      | child d' =>
+        obtain ⟨hlr, a, pk, pv, b, rfl, ha, hb', hab, hd⟩ := hro
+        obtain ⟨gl, gk, gv, gr, rfl⟩ := red_of_not_black hlr
+        have hcb : c = .black := by
+          cases c
+          · simp_all
+          · rfl
+        subst hcb
+        obtain ⟨t, st, hg, h1, h2, h3⟩ :=
+          atGparentR_ok (k := pk) (v := pv) (gk := k) (gv := v) ha hb' hab hd hbl (by simp_all)
+        simp only [hg, Option.map_some]
+        refine ⟨_, _, _, _, rfl, ?_, ?_⟩
+        · simp_all
+        · rcases h3 with ⟨rfl, h3⟩ | ⟨rfl, h3⟩ <;> simp_all [InsOK]
+    · -- eq
+      refine ⟨_, _, _, _, rfl, ?_, ?_⟩
+      · cases c <;> simp
+      · cases c <;> simp_all [InsOK]
+
+theorem ins_ok [TransCmp cmp] (t : RT κ ν) (x : κ) (y : ν) (hi : t.Inv)
+    (hs : SM.Sorted cmp t.toList) :
+    ∃ t', ins cmp t x y =
+        some (t', (SM.find cmp t.toList x).isNone, (SM.find cmp t.toList x).toList) ∧
+      t'.toList = SM.insert cmp t.toList x y ∧ t'.Inv := by
+  obtain ⟨t', st, a, d, h, _, ho⟩ := insAux_ok cmp t x y hi.2
+  obtain ⟨e1, rfl, rfl⟩ := insAux_toList t x y h hs
+  simp only [ins, h]
+  cases st with
+  | done => exact ⟨_, rfl, e1, ho.2 hi.1, ho.1⟩
+  | node =>
+    refine ⟨_, rfl, by simp [e1], ?_, Bal_paint_black ho.1⟩
+    obtain ⟨_, _, _, _, rfl⟩ := red_of_not_black ho.2
+    rfl
+  | child d' =>
+    have := ho.1
+    simp [hi.1] at this
+
+end RT
+
+/-! ### removal: in-order listing -/
+
+namespace RT
+
+theorem fixLeft345_toList {n s : RT κ ν} {pk : κ} {pv : ν} {pc : Color} {t : RT κ ν} {dfc : Bool}
+    (h : fixLeft345 n pk pv pc s = some (t, dfc)) :
+    t.toList = n.toList ++ (pk, pv) :: s.toList := by
+  unfold fixLeft345 at h
+  split at h
+  · simp at h
+  · split at h
+    · split at h <;>
+      · simp only [Option.some.injEq, Prod.mk.injEq] at h
+        rw [← h.1]; simp
+    · split at h
+      · split at h
+        · simp at h
+        · simp only [Option.some.injEq, Prod.mk.injEq] at h
+          rw [← h.1]; simp
+      · simp only [Option.some.injEq, Prod.mk.injEq] at h
+        rw [← h.1]; simp
+
+theorem fixRight345_toList {n s : RT κ ν} {pk : κ} {pv : ν} {pc : Color} {t : RT κ ν} {dfc : Bool}
+    (h : fixRight345 s pk pv pc n = some (t, dfc)) :
+    t.toList = s.toList ++ (pk, pv) :: n.toList := by
+  unfold fixRight345 at h
+  split at h
+  · simp at h
+  · split at h
+    · split at h <;>
+      · simp only [Option.some.injEq, Prod.mk.injEq] at h
+        rw [← h.1]; simp
+    · split at h
+      · split at h
+        · simp at h
+        · simp only [Option.some.injEq, Prod.mk.injEq] at h
+          rw [← h.1]; simp
+      · simp only [Option.some.injEq, Prod.mk.injEq] at h
+        rw [← h.1]; simp
+
+theorem deficitLeft_toList {n s : RT κ ν} {pk : κ} {pv : ν} {pc : Color} {t : RT κ ν} {dfc : Bool}
+    (h : deficitLeft n pk pv pc s = some (t, dfc)) :
+    t.toList = n.toList ++ (pk, pv) :: s.toList := by
+  unfold deficitLeft at h
+  split at h
+  · simp at h
+  · split at h
+    · split at h
+      · simp at h
+      · rename_i hf
+        simp only [Option.some.injEq, Prod.mk.injEq] at h
+        rw [← h.1]; simp [fixLeft345_toList hf]
+    · exact fixLeft345_toList h
+
+theorem deficitRight_toList {n s : RT κ ν} {pk : κ} {pv : ν} {pc : Color} {t : RT κ ν} {dfc : Bool}
+    (h : deficitRight s pk pv pc n = some (t, dfc)) :
+    t.toList = s.toList ++ (pk, pv) :: n.toList := by
+  unfold deficitRight at h
+  split at h
+  · simp at h
+  · split at h
+    · split at h
+      · simp at h
+      · rename_i hf
+        simp only [Option.some.injEq, Prod.mk.injEq] at h
+        rw [← h.1]; simp [fixRight345_toList hf]
+    · exact fixRight345_toList h
+
+theorem unlink_toList (l r : RT κ ν) (c : Color) (h : l = nil ∨ r = nil) :
+    (unlink l c r).1.toList = l.toList ++ r.toList := by
+  cases l with
+  | nil =>
+    cases r with
+    | nil => simp [unlink]
+    | node rl rk rv rc rr => cases c <;> simp [unlink, paint]
+  | node ll lk lv lc lr =>
+    cases r with
+    | nil => cases c <;> simp [unlink, paint]
+    | node rl rk rv rc rr => simp at h
+
+theorem delMax_toList (r : RT κ ν) : ∀ (l : RT κ ν) (k : κ) (v : ν) (c : Color) {t dfc p},
+    delMax l k v c r = some (t, dfc, p) → t.toList ++ [p] = l.toList ++ (k, v) :: r.toList := by
+  induction r with
+  | nil =>
+    intro l k v c t dfc p h
+    simp only [delMax, Option.some.injEq, Prod.mk.injEq] at h
+    obtain ⟨rfl, _, rfl⟩ := h
+    simp [unlink_toList l nil c (Or.inr rfl)]
+  | node rl rk rv rc rr _ ihr =>
+    intro l k v c t dfc p h
+    simp only [delMax] at h
+    split at h
+    · simp at h
+    · rename_i r' dfc' p' hr
+      have e := ihr rl rk rv rc hr
+      split at h
+      · simp only [Option.map_eq_some_iff] at h
+        obtain ⟨⟨t2, d2⟩, hg, h⟩ := h
+        simp only [Prod.mk.injEq] at h
+        obtain ⟨rfl, _, rfl⟩ := h
+        rw [deficitRight_toList hg]
+        simp [← e]
+      · simp only [Option.some.injEq, Prod.mk.injEq] at h
+        obtain ⟨rfl, _, rfl⟩ := h
+        simp [← e]
+
+theorem delAux_toList [TransCmp cmp] (t : RT κ ν) (x : κ) :
+    ∀ {t' dfc f d}, delAux cmp t x = some (t', dfc, f, d) → SM.Sorted cmp t.toList →
+      t'.toList = SM.erase cmp t.toList x ∧ f = (SM.find cmp t.toList x).isSome ∧
+      d = (SM.find cmp t.toList x).toList := by
+  induction t with
+  | nil =>
+    intro t' dfc f d h _
+    simp only [delAux, Option.some.injEq, Prod.mk.injEq] at h
+    obtain ⟨rfl, _, rfl, rfl⟩ := h
+    simp [SM.erase, SM.find]
+  | node l k v c r ihl ihr =>
+    intro t' dfc f d h hs
+    rw [toList_node] at hs ⊢
+    have hs' := SM.sorted_append_cons.mp hs
+    simp only [delAux] at h
+    split at h
+    · -- lt
+      rename_i hc
+      rw [SM.erase_mid_lt hs hc, SM.find_mid_lt hs hc]
+      split at h
+      · simp at h
+      · rename_i l' dfc' f' d' hl
+        obtain ⟨e1, e2, e3⟩ := ihl hl hs'.1
+        split at h
+        · simp only [Option.map_eq_some_iff] at h
+          obtain ⟨⟨t2, d2⟩, hg, h⟩ := h
+          simp only [Prod.mk.injEq] at h
+          obtain ⟨rfl, _, rfl, rfl⟩ := h
+          rw [deficitLeft_toList hg]
+          simp [e1, e2, e3]
+        · simp only [Option.some.injEq, Prod.mk.injEq] at h
+          obtain ⟨rfl, _, rfl, rfl⟩ := h
+          simp [e1, e2, e3]
+    · -- gt
+      rename_i hc
+      rw [SM.erase_mid_gt hs hc, SM.find_mid_gt hs hc]
+      split at h
+      · simp at h
+      · rename_i r' dfc' f' d' hr
+        obtain ⟨e1, e2, e3⟩ := ihr hr hs'.2.1
+        split at h
+        · simp only [Option.map_eq_some_iff] at h
+          obtain ⟨⟨t2, d2⟩, hg, h⟩ := h
+          simp only [Prod.mk.injEq] at h
+          obtain ⟨rfl, _, rfl, rfl⟩ := h
+          rw [deficitRight_toList hg]
+          simp [e1, e2, e3]
+        · simp only [Option.some.injEq, Prod.mk.injEq] at h
+          obtain ⟨rfl, _, rfl, rfl⟩ := h
+          simp [e1, e2, e3]
+    · -- eq
+      rename_i hc
+      rw [SM.erase_mid_eq hs hc, SM.find_mid_eq hs hc]
+      split at h
+      · rename_i ll lk lv lc lr rl rk rv rc rr
+        split at h
+        · simp at h
+        · rename_i l' dfc' p hm
+          have e := delMax_toList lr ll lk lv lc hm
+          rw [← toList_node ll lk lv lc lr] at e
+          split at h
+          · simp only [Option.map_eq_some_iff] at h
+            obtain ⟨⟨t2, d2⟩, hg, h⟩ := h
+            simp only [Prod.mk.injEq] at h
+            obtain ⟨rfl, _, rfl, rfl⟩ := h
+            rw [deficitLeft_toList hg, ← e]
+            simp
+          · simp only [Option.some.injEq, Prod.mk.injEq] at h
+            obtain ⟨rfl, _, rfl, rfl⟩ := h
+            rw [← e]
+            simp
+      · rename_i hnn
+        have hor : l = nil ∨ r = nil := by
+          cases l with
+          | nil => exact Or.inl rfl
+          | node ll lk lv lc lr =>
+            cases r with
+            | nil => exact Or.inr rfl
+            | node rl rk rv rc rr => exact absurd rfl (hnn _ _ _ _ _ _ _ _ _ _ rfl)
+        have e := unlink_toList l r c hor
+        simp only [Option.some.injEq, Prod.mk.injEq] at h
+        obtain ⟨rfl, _, rfl, rfl⟩ := h
+        simp [e]
+
+end RT
+
+/-! ### removal: colour invariant -/
+
+namespace RT
+
+theorem bh_paint_black_of_red {t : RT κ ν} (h : t.isBlack = false) :
+    (paint .black t).bh = t.bh + 1 := by
+  obtain ⟨_, _, _, _, rfl⟩ := red_of_not_black h
+  simp [paint]
+
+theorem isBlack_paint_black (t : RT κ ν) : (paint .black t).isBlack = true := by
+  cases t <;> rfl
+
+/-- Cases 3–5, `node` on the left: `n` is one black node short of its black sibling `s` -/
+theorem fixLeft345_ok {n s : RT κ ν} (pk : κ) (pv : ν) (pc : Color)
+    (hn : n.Bal) (hs : s.Bal) (hbh : s.bh = n.bh + 1) (hsb : s.isBlack = true) :
+    ∃ t dfc, fixLeft345 n pk pv pc s = some (t, dfc) ∧ t.Bal ∧
+      t.bh + (if dfc = true then 1 else 0) = n.bh + 1 + (if pc = .black then 1 else 0) ∧
+      (pc = .red → dfc = false) ∧ (pc = .black → t.isBlack = true) := by
+  cases s with
+  | nil => simp at hbh
+  | node sl sk sv sc sr =>
+    cases sc with
+    | red => simp at hsb
+    | black =>
+      rw [Bal_black] at hs
+      obtain ⟨hsl, hsr, he⟩ := hs
+      simp only [bh_black, Nat.add_right_cancel_iff] at hbh
+      cases hlb : sl.isBlack
+      · cases hrb : sr.isBlack
+        · -- Case 5
+          simp only [fixLeft345, fixRight345, hlb, hrb, Bool.and_self, Bool.and_true, Bool.and_false,
+            Bool.false_eq_true, beq_iff_eq, reduceCtorEq, ↓reduceIte]
+          refine ⟨_, _, rfl, ?_⟩
+          have := bh_paint_black_of_red hrb
+          have := Bal_paint_black hsr
+          cases pc <;> simp_all [isBlack_paint_black]
+        · -- Case 4
+          obtain ⟨a, ak, av, b, rfl⟩ := red_of_not_black hlb
+          simp only [fixLeft345, fixRight345, hlb, hrb, Bool.and_self, Bool.and_true, Bool.and_false,
+            Bool.false_eq_true, beq_iff_eq, reduceCtorEq, ↓reduceIte]
+          refine ⟨_, _, rfl, ?_⟩
+          cases pc <;> simp_all
+      · cases hrb : sr.isBlack
+        · -- Case 5
+          simp only [fixLeft345, fixRight345, hlb, hrb, Bool.and_self, Bool.and_true, Bool.and_false,
+            Bool.false_eq_true, beq_iff_eq, reduceCtorEq, ↓reduceIte]
+          refine ⟨_, _, rfl, ?_⟩
+          have := bh_paint_black_of_red hrb
+          have := Bal_paint_black hsr
+          cases pc <;> simp_all [isBlack_paint_black]
+        · -- Case 3
+          cases pc
+          · simp only [fixLeft345, fixRight345, hlb, hrb, Bool.and_self, Bool.and_true, Bool.and_false,
+              Bool.false_eq_true, beq_iff_eq, reduceCtorEq, ↓reduceIte]
+            refine ⟨_, _, rfl, ?_⟩
+            simp_all
+          · simp only [fixLeft345, fixRight345, hlb, hrb, Bool.and_self, Bool.and_true, Bool.and_false,
+              Bool.false_eq_true, beq_iff_eq, reduceCtorEq, ↓reduceIte]
+            refine ⟨_, _, rfl, ?_⟩
+            simp_all
+
+theorem fixRight345_ok {n s : RT κ ν} (pk : κ) (pv : ν) (pc : Color)
+    (hn : n.Bal) (hs : s.Bal) (hbh : s.bh = n.bh + 1) (hsb : s.isBlack = true) :
+    ∃ t dfc, fixRight345 s pk pv pc n = some (t, dfc) ∧ t.Bal ∧
+      t.bh + (if dfc = true then 1 else 0) = n.bh + 1 + (if pc = .black then 1 else 0) ∧
+      (pc = .red → dfc = false) ∧ (pc = .black → t.isBlack = true) := by
+  cases s with
+  | nil => simp at hbh
+  | node sl sk sv sc sr =>
+    cases sc with
+    | red => simp at hsb
+    | black =>
+      rw [Bal_black] at hs
+      obtain ⟨hsl, hsr, he⟩ := hs
+      simp only [bh_black, Nat.add_right_cancel_iff] at hbh
+      cases hrb : sr.isBlack
+      · cases hlb : sl.isBlack
+        · -- Case 5
+          simp only [fixLeft345, fixRight345, hlb, hrb, Bool.and_self, Bool.and_true, Bool.and_false,
+            Bool.false_eq_true, beq_iff_eq, reduceCtorEq, ↓reduceIte]
+          refine ⟨_, _, rfl, ?_⟩
+          have := bh_paint_black_of_red hlb
+          have := Bal_paint_black hsl
+          cases pc <;> simp_all [isBlack_paint_black]
+        · -- Case 4
+          obtain ⟨a, ak, av, b, rfl⟩ := red_of_not_black hrb
+          simp only [fixLeft345, fixRight345, hlb, hrb, Bool.and_self, Bool.and_true, Bool.and_false,
+            Bool.false_eq_true, beq_iff_eq, reduceCtorEq, ↓reduceIte]
+          refine ⟨_, _, rfl, ?_⟩
+          cases pc <;> simp_all
+      · cases hlb : sl.isBlack
+        · -- Case 5
+          simp only [fixLeft345, fixRight345, hlb, hrb, Bool.and_self, Bool.and_true, Bool.and_false,
+            Bool.false_eq_true, beq_iff_eq, reduceCtorEq, ↓reduceIte]
+          refine ⟨_, _, rfl, ?_⟩
+          have := bh_paint_black_of_red hlb
+          have := Bal_paint_black hsl
+          cases pc <;> simp_all [isBlack_paint_black]
+        · -- Case 3
+          cases pc
+          · simp only [fixLeft345, fixRight345, hlb, hrb, Bool.and_self, Bool.and_true, Bool.and_false,
+              Bool.false_eq_true, beq_iff_eq, reduceCtorEq, ↓reduceIte]
+            refine ⟨_, _, rfl, ?_⟩
+            simp_all
+          · simp only [fixLeft345, fixRight345, hlb, hrb, Bool.and_self, Bool.and_true, Bool.and_false,
+              Bool.false_eq_true, beq_iff_eq, reduceCtorEq, ↓reduceIte]
+            refine ⟨_, _, rfl, ?_⟩
+            simp_all
+
+/-- the left subtree `n` is one black node short of its sibling `s` (any colour) -/
+theorem deficitLeft_ok {n s : RT κ ν} (pk : κ) (pv : ν) (pc : Color)
+    (hn : n.Bal) (hs : s.Bal) (hbh : s.bh = n.bh + 1) (hc : pc = .red → s.isBlack = true) :
+    ∃ t dfc, deficitLeft n pk pv pc s = some (t, dfc) ∧ t.Bal ∧
+      t.bh + (if dfc = true then 1 else 0) = n.bh + 1 + (if pc = .black then 1 else 0) ∧
+      (pc = .black → t.isBlack = true) := by
+  cases s with
+  | nil => simp at hbh
+  | node sl sk sv sc sr =>
+    cases sc with
+    | black =>
+      obtain ⟨t, dfc, h, h1, h2, _, h4⟩ := fixLeft345_ok pk pv pc hn hs hbh rfl
+      exact ⟨t, dfc, by simpa [deficitLeft] using h, h1, h2, h4⟩
+    | red =>
+      have hpc : pc = .black := by
+        cases pc
+        · simp at hc
+        · rfl
+      subst hpc
+      rw [Bal_red] at hs
+      obtain ⟨hsl, hsr, he, hlb, hrb⟩ := hs
+      simp only [bh_red] at hbh
+      obtain ⟨p', dfc, h, h1, h2, h3, _⟩ := fixLeft345_ok pk pv .red hn hsl hbh hlb
+      have := h3 rfl
+      subst this
+      simp only [deficitLeft, h, beq_self_eq_true, ↓reduceIte]
+      refine ⟨_, _, rfl, ?_⟩
+      simp_all
+
+theorem deficitRight_ok {n s : RT κ ν} (pk : κ) (pv : ν) (pc : Color)
+    (hn : n.Bal) (hs : s.Bal) (hbh : s.bh = n.bh + 1) (hc : pc = .red → s.isBlack = true) :
+    ∃ t dfc, deficitRight s pk pv pc n = some (t, dfc) ∧ t.Bal ∧
+      t.bh + (if dfc = true then 1 else 0) = n.bh + 1 + (if pc = .black then 1 else 0) ∧
+      (pc = .black → t.isBlack = true) := by
+  cases s with
+  | nil => simp at hbh
+  | node sl sk sv sc sr =>
+    cases sc with
+    | black =>
+      obtain ⟨t, dfc, h, h1, h2, _, h4⟩ := fixRight345_ok pk pv pc hn hs hbh rfl
+      exact ⟨t, dfc, by simpa [deficitRight] using h, h1, h2, h4⟩
+    | red =>
+      have hpc : pc = .black := by
+        cases pc
+        · simp at hc
+        · rfl
+      subst hpc
+      rw [Bal_red] at hs
+      obtain ⟨hsl, hsr, he, hlb, hrb⟩ := hs
+      simp only [bh_red] at hbh
+      obtain ⟨p', dfc, h, h1, h2, h3, _⟩ := fixRight345_ok pk pv .red hn hsr (by omega) hrb
+      have := h3 rfl
+      subst this
+      simp only [deficitRight, h, beq_self_eq_true, ↓reduceIte]
+      refine ⟨_, _, rfl, ?_⟩
+      simp_all
+
+theorem red_of_bh_zero {t : RT κ ν} (h : t.bh = 0) (hne : t ≠ nil) : t.isBlack = false := by
+  cases t with
+  | nil => simp at hne
+  | node l k v c r => cases c <;> simp_all
+
+theorem unlink_ok (l r : RT κ ν) (k : κ) (v : ν) (c : Color) (hb : (node l k v c r).Bal)
+    (h : l = nil ∨ r = nil) :
+    (unlink l c r).1.Bal ∧
+      (unlink l c r).1.bh + (if (unlink l c r).2 = true then 1 else 0) = (node l k v c r).bh ∧
+      (c = .black → (unlink l c r).1.isBlack = true) := by
+  cases l with
+  | nil =>
+    cases r with
+    | nil => cases c <;> simp [unlink]
+    | node rl rk rv rc rr =>
+      have hr : (node rl rk rv rc rr).isBlack = false :=
+        red_of_bh_zero (by cases c <;> simp_all) (by simp)
+      obtain ⟨_, _, _, _, e⟩ := red_of_not_black hr
+      cases c <;> simp_all [unlink, paint]
+  | node ll lk lv lc lr =>
+    cases r with
+    | nil =>
+      have hr : (node ll lk lv lc lr).isBlack = false :=
+        red_of_bh_zero (by cases c <;> simp_all) (by simp)
+      obtain ⟨_, _, _, _, e⟩ := red_of_not_black hr
+      cases c <;> simp_all [unlink, paint]
+    | node rl rk rv rc rr => simp at h
+
+theorem delMax_ok (r : RT κ ν) : ∀ (l : RT κ ν) (k : κ) (v : ν) (c : Color), (node l k v c r).Bal →
+    ∃ t dfc p, delMax l k v c r = some (t, dfc, p) ∧ t.Bal ∧
+      t.bh + (if dfc = true then 1 else 0) = (node l k v c r).bh ∧
+      (c = .black → t.isBlack = true) := by
+  induction r with
+  | nil =>
+    intro l k v c hb
+    exact ⟨_, _, _, rfl, unlink_ok l nil k v c hb (Or.inr rfl)⟩
+  | node rl rk rv rc rr _ ihr =>
+    intro l k v c hb
+    have hbl := hb.1
+    have hbr := hb.2.1
+    have he := hb.2.2.1
+    have hc := hb.2.2.2
+    obtain ⟨r', dfc, p, h, h1, h2, h3⟩ := ihr rl rk rv rc hbr
+    simp only [delMax, h]
+    cases dfc with
+    | true =>
+      simp only [if_true] at h2
+      obtain ⟨t, d', hg, g1, g2, g3⟩ :=
+        deficitRight_ok k v c h1 hbl (by omega) (fun hc' => (hc hc').1)
+      simp only [hg, Option.map_some, if_true]
+      refine ⟨_, _, _, rfl, g1, ?_, g3⟩
+      cases c <;> simp_all <;> omega
+    | false =>
+      simp only [Bool.false_eq_true, if_false]
+      refine ⟨_, _, _, rfl, ?_⟩
+      cases c
+      · have hrb := (hc rfl).2
+        cases rc <;> simp_all
+      · simp_all
+
+theorem delAux_ok (cmp : κ → κ → Ordering) (t : RT κ ν) (x : κ) (hb : t.Bal) :
+    ∃ t' dfc f d, delAux cmp t x = some (t', dfc, f, d) ∧ t'.Bal ∧
+      t'.bh + (if dfc = true then 1 else 0) = t.bh ∧ (t.isBlack = true → t'.isBlack = true) := by
+  induction t with
+  | nil => exact ⟨_, _, _, _, rfl, by simp⟩
+  | node l k v c r ihl ihr =>
+    have hbl := hb.1
+    have hbr := hb.2.1
+    have he := hb.2.2.1
+    have hc := hb.2.2.2
+    simp only [delAux]
+    split
+    · -- lt
+      obtain ⟨l', dfc, f, d, h, h1, h2, h3⟩ := ihl hbl
+      simp only [h]
+      cases dfc with
+      | true =>
+        simp only [if_true] at h2
+        obtain ⟨t, d', hg, g1, g2, g3⟩ :=
+          deficitLeft_ok k v c h1 hbr (by omega) (fun hc' => (hc hc').2)
+        simp only [hg, Option.map_some, if_true]
+        refine ⟨_, _, _, _, rfl, g1, ?_, ?_⟩
+        · cases c <;> simp_all <;> omega
+        · cases c <;> simp_all
+      | false =>
+        simp only [Bool.false_eq_true, if_false]
+        refine ⟨_, _, _, _, rfl, ?_⟩
+        cases c <;> simp_all
+    · -- gt
+      obtain ⟨r', dfc, f, d, h, h1, h2, h3⟩ := ihr hbr
+      simp only [h]
+      cases dfc with
+      | true =>
+        simp only [if_true] at h2
+        obtain ⟨t, d', hg, g1, g2, g3⟩ :=
+          deficitRight_ok k v c h1 hbl (by omega) (fun hc' => (hc hc').1)
+        simp only [hg, Option.map_some, if_true]
+        refine ⟨_, _, _, _, rfl, g1, ?_, ?_⟩
+        · cases c <;> simp_all <;> omega
+        · cases c <;> simp_all
+      | false =>
+        simp only [Bool.false_eq_true, if_false]
+        refine ⟨_, _, _, _, rfl, ?_⟩
+        cases c <;> simp_all
+    · -- eq
+      split
+      · rename_i ll lk lv lc lr rl rk rv rc rr
+        obtain ⟨l', dfc, p, h, h1, h2, h3⟩ := delMax_ok lr ll lk lv lc hbl
+        simp only [h]
+        cases dfc with
+        | true =>
+          simp only [if_true] at h2
+          obtain ⟨t, d', hg, g1, g2, g3⟩ :=
+            deficitLeft_ok p.1 p.2 c h1 hbr (by omega) (fun hc' => (hc hc').2)
+          simp only [hg, Option.map_some, if_true]
+          refine ⟨_, _, _, _, rfl, g1, ?_, ?_⟩
+          · cases c <;> simp_all <;> omega
+          · cases c <;> simp_all
+        | false =>
+          simp only [Bool.false_eq_true, if_false]
+          refine ⟨_, _, _, _, rfl, ?_⟩
+          cases c
+          · have hlb := (hc rfl).1
+            cases lc <;> simp_all
+          · simp_all
+      · rename_i hnn
+        have hor : l = nil ∨ r = nil := by
+          cases l with
+          | nil => exact Or.inl rfl
+          | node ll lk lv lc lr =>
+            cases r with
+            | nil => exact Or.inr rfl
+            | node rl rk rv rc rr => exact absurd rfl (hnn _ _ _ _ _ _ _ _ _ _ rfl)
+        have hu := unlink_ok l r k v c hb hor
+        refine ⟨_, _, _, _, rfl, hu.1, hu.2.1, ?_⟩
+        intro hk
+        cases c
+        · simp at hk
+        · exact hu.2.2 rfl
+
+theorem del_ok [TransCmp cmp] (t : RT κ ν) (x : κ) (hi : t.Inv) (hs : SM.Sorted cmp t.toList) :
+    ∃ t', del cmp t x =
+        some (t', (SM.find cmp t.toList x).isSome, (SM.find cmp t.toList x).toList) ∧
+      t'.toList = SM.erase cmp t.toList x ∧ t'.Inv := by
+  obtain ⟨t', dfc, f, d, h, h1, _, h3⟩ := delAux_ok cmp t x hi.2
+  obtain ⟨e1, rfl, rfl⟩ := delAux_toList t x h hs
+  exact ⟨t', by simp [del, h], e1, h3 hi.1, h1⟩
+
+end RT
+
+/-! ### the operation sequence -/
+
+private theorem specRun_cons (l : List (κ × ν)) (op : Op κ ν) (ops : List (Op κ ν)) :
+    specRun cmp l (op :: ops) =
+      ((specRun cmp (specStep cmp l op).1 ops).1,
+        (specStep cmp l op).2 :: (specRun cmp (specStep cmp l op).1 ops).2) := rfl
+
+theorem rbStep_refines [TransCmp cmp] (op : Op κ ν) (t : RT κ ν) (n : Int)
+    (ho : t.toBT.Ordered cmp) (hi : t.Inv) (hn : n = t.toList.length) :
+    ∃ t' n', rbStep cmp (t, n) op = some ((t', n'), (specStep cmp t.toList op).2) ∧
+      t'.toList = (specStep cmp t.toList op).1 ∧ t'.Inv ∧ t'.toBT.Ordered cmp ∧
+      n' = (t'.toList.length : Int) := by
+  have hs : SM.Sorted cmp t.toList := ho
+  cases op with
+  | ins k v =>
+    obtain ⟨t', h, e, hinv⟩ := RT.ins_ok t k v hi hs
+    have hlen : (if (SM.find cmp t.toList k).isNone = true then n + 1 else n) =
+        ((SM.insert cmp t.toList k v).length : Int) := by
+      rw [SM.length_insert hs, hn]; split <;> simp
+    refine ⟨t', ((SM.insert cmp t.toList k v).length : Int), ?_, e, hinv, ?_, ?_⟩
+    · simp only [rbStep, h, Option.map_some, specStep, hlen]
+    · show SM.Sorted cmp t'.toList
+      rw [e]; exact SM.sorted_insert hs k v
+    · rw [e]
+  | rem k =>
+    obtain ⟨t', h, e, hinv⟩ := RT.del_ok t k hi hs
+    have hlen : (if (SM.find cmp t.toList k).isSome = true then n - 1 else n) =
+        ((SM.erase cmp t.toList k).length : Int) := by
+      have := SM.length_erase hs k
+      rw [hn]; split at this <;> simp_all <;> omega
+    refine ⟨t', ((SM.erase cmp t.toList k).length : Int), ?_, e, hinv, ?_, ?_⟩
+    · simp only [rbStep, h, Option.map_some, specStep, hlen]
+    · show SM.Sorted cmp t'.toList
+      rw [e]; exact SM.sorted_erase hs k
+    · rw [e]
+  | get k =>
+    refine ⟨t, n, ?_, rfl, hi, ho, hn⟩
+    simp only [rbStep, specStep, BT.lookup_refines t.toBT ho k]
+    rfl
+  | each j =>
+    exact ⟨t, n, rfl, rfl, hi, ho, hn⟩
+  | clear =>
+    refine ⟨.nil, 0, ?_, rfl, by simp [RT.Inv], by simp [BT.Ordered, RT.toBT, BT.toList, SM.Sorted], ?_⟩
+    · simp only [rbStep, specStep, hn, Int.sub_self]
+    · simp [hn]
+  | count =>
+    refine ⟨t, n, ?_, rfl, hi, ho, hn⟩
+    simp only [rbStep, specStep, hn]
+
 theorem rbRun_refines [TransCmp cmp] (ops : List (Op κ ν)) (t : RT κ ν) (n : Int) (l : List (κ × ν))
     (ho : t.toBT.Ordered cmp) (hi : t.Inv) (hl : t.toList = l) (hn : n = l.length) :
     ∃ s, rbRun cmp (t, n) ops = some (s, (specRun cmp l ops).2) ∧
       s.1.toList = (specRun cmp l ops).1 ∧ s.1.Inv := by
-  sorry
+  induction ops generalizing t n l with
+  | nil => exact ⟨(t, n), rfl, hl, hi⟩
+  | cons op ops ih =>
+    subst hl
+    obtain ⟨t', n', h, e, hinv, hord, hn'⟩ := rbStep_refines (cmp := cmp) op t n ho hi hn
+    obtain ⟨s, h2, e2, hinv2⟩ := ih t' n' _ hord hinv e (by rw [← e]; exact hn')
+    refine ⟨s, ?_, ?_, hinv2⟩
+    · simp only [rbRun, h, h2, specRun_cons]
+    · rw [specRun_cons]; exact e2
+
+/-! ### bounds -/
 
 /-- a red-black tree with black height `bh` has at least `2^bh − 1` nodes and height ≤ 2·bh -/
 theorem RT.pow_bh_le_size (t : RT κ ν) (hb : t.Bal) : 2 ^ t.bh ≤ t.size + 1 := by
-  sorry
+  induction t with
+  | nil => simp [RT.size, RT.toBT, BT.size]
+  | node l k v c r ihl ihr =>
+    have hl := ihl hb.1
+    have hr := ihr hb.2.1
+    have he := hb.2.2.1
+    simp only [RT.size, RT.toBT, BT.size] at *
+    cases c
+    · simp only [RT.bh_red]; omega
+    · simp only [RT.bh_black, Nat.pow_succ]; rw [← he] at hr; omega
+
+theorem RT.height_le_aux (t : RT κ ν) (hb : t.Bal) :
+    t.height ≤ 2 * t.bh + (if t.isBlack = true then 0 else 1) := by
+  induction t with
+  | nil => simp [RT.height, RT.toBT, BT.height]
+  | node l k v c r ihl ihr =>
+    have hl := ihl hb.1
+    have hr := ihr hb.2.1
+    simp only [RT.height, RT.toBT, BT.height] at *
+    cases c
+    · rw [RT.Bal_red] at hb
+      obtain ⟨_, _, he, h1, h2⟩ := hb
+      simp only [h1, h2, if_true] at hl hr
+      simp only [RT.bh_red, RT.isBlack_red]
+      rw [← he] at hr
+      simp; omega
+    · rw [RT.Bal_black] at hb
+      obtain ⟨_, _, he⟩ := hb
+      simp only [RT.bh_black, RT.isBlack_black, if_true]
+      rw [← he] at hr
+      split at hl <;> split at hr <;> omega
 
 theorem RT.height_le_two_bh (t : RT κ ν) (hi : t.Inv) : t.height ≤ 2 * t.bh := by
-  sorry
+  have := RT.height_le_aux t hi.2
+  simp only [hi.1, if_true] at this
+  exact this
 
 end PV.Tree
